@@ -3,7 +3,7 @@
     allocates/frees exactly the difference of the node counts.  By induction over the operation list. *)
 From Coq Require Import List Bool Arith Lia.
 From TLXV Require Import Common.Order C01.Model C01.Defs C01.Spec C01.SearchProofs C01.LookupProofs
-     C01.BulkProofs C01.InsertProofs C01.EraseElems C01.EraseInv.
+     C01.BulkProofs C01.BulkDedup C01.InsertProofs C01.EraseElems C01.EraseInv.
 Import ListNotations.
 
 Section History.
@@ -24,7 +24,7 @@ Section History.
   Notation run := (run ltb key dk leafmax innermax dup binsearch veqb vltb).
   Notation spec_step := (spec_step ltb key dk dup veqb vltb).
   Notation spec_run := (spec_run ltb key dk dup veqb vltb).
-  Notation op_wf := (op_wf ltb key dup).
+  Notation op_wf := (op_wf ltb key).
 
   Definition abs (st : list tree) : list (list V) := map t_elems st.
   Definition total_nodes (st : list tree) : nat := list_sum (map t_nodes st).
@@ -216,9 +216,9 @@ Section History.
         cbn [s_state s_out s_bad s_allocs s_frees fst snd]. repeat split; auto; try lia.
       + cbn [t_elems]. cbn [s_state s_out s_bad s_allocs s_frees fst snd].
         repeat split; auto using put_length.
-        * apply Inv_put; [exact HI|]. now apply bulk_load_inv.
-        * rewrite abs_put. now rewrite (bulk_load_elems key dk leafmax innermax Hl Hi).
-        * pose proof (total_put st i (bulk_load key dk leafmax innermax l) Hwi) as T. rewrite Eg in T.
+        * apply Inv_put; [exact HI|]. now apply (bulk_load_inv ltb key dk leafmax innermax dup Hswo Hl Hi).
+        * rewrite abs_put. now rewrite (bulk_load_elems ltb key dk leafmax innermax dup Hl Hi).
+        * pose proof (total_put st i (bulk_load ltb key dk leafmax innermax dup l) Hwi) as T. rewrite Eg in T.
           cbn [t_nodes] in T. lia.
   Qed.
 
